@@ -31,6 +31,7 @@ type Xlat struct {
 	loopHdrCount map[string]int
 
 	qn int
+	rp *ReplayInfo // replay of counterexamples: the function under verification and its parameters
 	nn bool // view C01: non-nil discipline of the graph structure (assumption A11)
 	lock *lockCtx
 	lockHavocOK bool
@@ -144,7 +145,7 @@ func (x *Xlat) emit(st *State, name, kind string, goal *Term, pos token.Pos, tex
 		// lockstep mode: the functional obligations are discharged by the other checks; here they are only assumed
 		return &Obligation{Name: name, Kind: kind, Func: x.curFunc, Goal: goal, Text: text, Ctx: x.ctx}
 	}
-	o := &Obligation{Name: name, Kind: kind, Func: x.curFunc, Hyps: st.hyps(), Goal: goal, Text: text, Ctx: x.ctx}
+	o := &Obligation{Name: name, Kind: kind, Func: x.curFunc, Hyps: st.hyps(), Goal: goal, Text: text, Ctx: x.ctx, Replay: x.rp}
 	if pos.IsValid() {
 		o.Pos = x.prog.Fset.Position(pos)
 	}
